@@ -74,4 +74,12 @@ CLAIMED.update({
   "note": LEDGER_NOTE + " Reproduction theorem (load_dag of a reachable stream = source up to order) not yet proved: partial.", "design_ref": "6 C14",
  },
 })
+CLAIMED.update({
+ "C20": {
+  "engine": "purefh+coqc",
+  "technique": "Coq theorems over an abstract AEAD/codec (section hypotheses): round trip, no panic for any key/file, wrong key / any other file / any truncation => error; exhaustive truncation + byte-position differential against the real file operations",
+  "text": "C20_roundtrip, C20_never_crashes (for every key and file), C20_wrong_key_is_error, C20_altered_file_is_error, C20_truncated_file_is_error (all lengths). The theorems' own content is the nonce framing, the key/length guards and the error plumbing of Encrypt/Decrypt/SaveWallet/ReadWallet; AES-GCM authenticity and the gob round trip are explicit premises. The harness runs the real code over all truncation lengths and all byte positions of every generated file and compares the outcome class with the model's decision list.",
+  "note": "Cryptography is assumed (H-aead, H-gob, H-pem), not proved; the model's framing/guards are tied to aes.wrapper.go and fileoperations/wallet.go by the per-run differential check.", "design_ref": "6 C20",
+ },
+})
 NOT_YET = {}
